@@ -58,7 +58,10 @@ where
 
     /// Inserts the `value` into the data structure.
     pub fn insert(&mut self, value: Value) {
-        self.reps.insert(&value.clone(), value);
+        // Inserting a value that is already part of some set must not detach it from that set
+        if self.reps.get(&value).is_none() {
+            self.reps.insert(&value.clone(), value);
+        }
     }
 
     /// Finds the root element corresponding to the query `value`.
